@@ -36,6 +36,10 @@ type Space struct {
 	Dev int // deviation bound, <0 = full state space
 	// Hooks are installed on every world of this space.
 	Hooks Hooks
+	// OnState, if set, is called exactly once per newly discovered canonical
+	// state with the live world that reached it (it may call read-only APIs such
+	// as ForceClose()/State(); it must not advance the state machines).
+	OnState func(w *World)
 }
 
 // Agg aggregates coverage over several spaces.
@@ -106,6 +110,11 @@ func RunSpaces(run *evid.Run, spaces []Space, deadline time.Time, workers int) *
 			Deadline:      deadline,
 			Workers:       workers,
 			Stop:          func() bool { return run.Violations() >= 3 },
+			OnState: func(ew explore.World, hist []string) {
+				if sp.OnState != nil {
+					sp.OnState(ew.(*World))
+				}
+			},
 		}, func(hist []string, v any) {
 			run.Violation(sp.P.Type+":panic", fmt.Sprintf("panic inside lnd during exploration: %v", v), map[string]any{"params": sp.P, "history": hist})
 		})
